@@ -118,25 +118,31 @@ Proof. intros. now apply (kept_comment_item src lt cx o) with (p' := p') (e' := 
 Print Assumptions C12_comments_kept_toplevel.
 
 (** ... and every comment at a [covered] position: reachable from the root through
-    items of node lists, items of group bodies, items of the body of an
-    environment whose text spec is absent or has no replacement and
-    [discard=False] ([env_transparent]), and (items of) arguments of a macro /
-    specials whose text spec has no replacement and [discard=False]
-    ([macro_concat], e.g. \textbf \emph \textit \text).
+    - items of node lists, items of group bodies,
+    - items of the body of an environment whose text spec is absent or has no
+      replacement and [discard=False] ([env_transparent]: itemize, center, unknown
+      environments ...),
+    - (items of) arguments of a macro / specials whose text spec has no
+      replacement and [discard=False] ([macro_concat]: \textbf \emph \textit \text ...),
+    - and, with [thru_math = true], items of the body of a math node or of an
+      equation-like environment in the modes that render formula bodies
+      ('text', 'with-delimiters'); this needs [solid ('%' ++ c)]: the comment text
+      does not end with a blank (the body text goes through [strip()]) and
+      contains no newline (display formulas are re-indented line by line).
 
     PARTIAL.  Full statement (not proved):
       [o_keep_comments o = true -> forall comment node of text c that is rendered
        at all, infix ('%' ++ c) (fst (node_text ... n))].
-    Positions NOT covered: bodies of math nodes and equation environments in
-    the 'text' / 'with-delimiters' modes (the body text goes through [strip()],
-    which may remove trailing blanks of a final comment), arguments substituted
-    into a replacement template ([%s] / [%(n)s]) and arguments handed to a
-    replacement callable (\section, \href, accents, ...), matrix cells. *)
-Theorem C12_comments_kept_covered_partial : forall src lt cx o c n,
+    Positions NOT covered: arguments substituted into a replacement template
+    ([%s] / [%(n)s]: \footnote, \url ...), arguments handed to a replacement
+    callable (\section, \href, \item[..], accents, math alphabets ...), matrix
+    cells. *)
+Theorem C12_comments_kept_covered_partial : forall src lt cx o thru_math c n,
   o_keep_comments o = true ->
-  covered lt (is_comment_with c) n ->
+  (thru_math = true -> solid (37%N :: c) = true) ->
+  covered lt o thru_math (is_comment_with c) n ->
   forall sl st, infix (37%N :: c) (fst (node_text src lt cx o sl st n)).
-Proof. intros src lt cx o c n Hk Hc. now apply kept_comment_covered. Qed.
+Proof. intros src lt cx o tm c n Hk Hs Hc. now apply (kept_comment_covered src lt cx o Hk tm). Qed.
 Print Assumptions C12_comments_kept_covered_partial.
 
 (** * Math modes *)
@@ -195,7 +201,7 @@ Print Assumptions C12_math_verbatim_independent.
     full statement = the same for every math node that is rendered at all. *)
 Theorem C12_math_verbatim_covered_partial : forall src lt cx o p e n,
   o_math o = MMVerbatim ->
-  covered lt (is_math_at p e) n ->
+  covered lt o false (is_math_at p e) n ->
   forall sl st, infix (slice src p e) (fst (node_text src lt cx o sl st n)).
 Proof. intros src lt cx o p e n Hm Hc. now apply verbatim_math_covered. Qed.
 Print Assumptions C12_math_verbatim_covered_partial.
@@ -309,19 +315,32 @@ Section Examples.
     intros H; vm_compute in H; discriminate.
   Qed.
 
-  (** both comments of [doc] sit at covered positions (one top-level, one inside \textbf{...}) *)
+  (** the comments of [doc] sit at covered positions: top-level, inside \textbf{...}, and
+      (doc2) inside a formula *)
+  Let mcom : str := [77;67]%N.
+  Let doc2 : node :=
+    NList (Some 0) (Some 9)
+      [Some (NMath 0 9 m0 false [36%N] [36%N]
+               (Some (NList (Some 1) (Some 8)
+                  [Some (NChars 1 2 m0 [120%N]); Some (NComment 2 6 m0 mcom [10%N]);
+                   Some (NChars 6 8 m0 [121;32]%N)])))].
   Example C12_comments_kept_nonvacuous :
-    covered lt (is_comment_with secret) doc /\ covered lt (is_comment_with inner) doc
-    /\ infix (37%N :: inner) (fst (node_text src0 lt cx (o_of MMText true) sls_bos d0 doc)).
+    covered lt (o_of MMText true) false (is_comment_with secret) doc
+    /\ infix (37%N :: inner) (fst (node_text src0 lt cx (o_of MMText true) sls_bos d0 doc))
+    /\ infix (37%N :: mcom) (fst (node_text src0 lt cx (o_of MMWithDelims true) sls_bos d0 doc2)).
   Proof.
-    assert (Hi : covered lt (is_comment_with inner) doc).
-    { eapply cov_list; [right; right; left; reflexivity|].
+    split; [|split].
+    - eapply cov_list; [right; left; reflexivity|]. apply cov_leaf. now exists 1, 5, m0, [10%N].
+    - apply (C12_comments_kept_covered_partial src0 lt cx (o_of MMText true) false); [reflexivity | discriminate |].
+      eapply cov_list; [right; right; left; reflexivity|].
       eapply cov_macro; [vm_compute; reflexivity | left; reflexivity |].
       eapply cov_group; [right; left; reflexivity|].
-      apply cov_leaf. now exists 15, 19, m0, [10%N]. }
-    split; [|split; [exact Hi|]].
-    - eapply cov_list; [right; left; reflexivity|]. apply cov_leaf. now exists 1, 5, m0, [10%N].
-    - now apply C12_comments_kept_covered_partial.
+      apply cov_leaf. now exists 15, 19, m0, [10%N].
+    - apply (C12_comments_kept_covered_partial src0 lt cx (o_of MMWithDelims true) true);
+        [reflexivity | intros _; vm_compute; reflexivity |].
+      eapply cov_list; [left; reflexivity|].
+      eapply cov_math; [reflexivity | reflexivity | right; left; reflexivity |].
+      apply cov_leaf. now exists 2, 6, m0, [10%N].
   Qed.
 
   Example C12_discard_nonvacuous :
